@@ -202,6 +202,10 @@ def run_check(prop_id, tier, base_seed=None):
     if not samples:
         samples = [r["sample"] for r in records[:3] if r.get("sample")]
     wall = time.time() - t0
+    measures = {}
+    for r in records:
+        for name, items in (r.get("sets") or {}).items():
+            measures.setdefault(name, set()).update(items)
     sim_runs = sum(r.get("sim_runs", 0) for r in records)
     modes = {}
     for r in records:
@@ -217,6 +221,9 @@ def run_check(prop_id, tier, base_seed=None):
         seeds_per_hour=int(len(records) / max(wall_runs, 1e-9) * 3600),
         logical_events=sum(r.get("events", 0) for r in records),
         simulated_time="not applicable: the code has no clocks, timers or timeouts; logical events are counted instead",
+        distinct_reached={k: len(v) for k, v in sorted(measures.items())},
+        distinct_reached_note="number of distinct values of each named measure over all simulated runs of this check "
+                              "(e.g. pool event orders = order of start/finish events relative to submission)",
         faults_fired=merge("faults"),
         reach_probes=merge("probes"),
         skipped=merge("skips"),
